@@ -155,6 +155,18 @@ CHECKS["C18"] = dict(
          "clusters.",
     design="5 C18", technique="Lean 4 proof (solver decision logic, chunk-free statistics, tsqr/SVD matrix algebra) + exact-Gram correspondence")
 
+CHECKS["C19"] = dict(
+    text="Theorems: every lambda body of the operator methods (translated from _classes.py) is the voxel "
+         "operation it stands for, incl. reflected s-p, s/p and mirrored comparisons; for EVERY pipeline "
+         "expression of any depth the object built through the operator methods evaluates to nested function "
+         "application with voxel-wise operators (mutual induction over expressions); @ is composition and "
+         "associative; curried functions equal the underlying function; every nm parameter enters only as "
+         "parameter/scale so common rescaling changes nothing; rescaling providers keep the image iff "
+         "|orig/scale-1| < tol; Gaussian exponent centred at (n-1)/2+shift/scale, symmetric, decreasing; "
+         "ball contains its centre; dilation/closing extensive, erosion/opening anti-extensive; smoothed masks "
+         "in (0,1]. scipy.ndimage resampling / morphology primitives are parameters, sampled on real converters.",
+    design="5 C19", technique="Lean 4 proof (refinement of the operator methods to a denotational semantics by induction over expressions) + expression-tree correspondence")
+
 CHECKS["C10"] = dict(
     text="Theorems: for every number of threads and EVERY schedule of TemplateMaskCache.get (statement "
          "granularity; Backend keys compared by wrapped module, cache filled at construction) no thread "
